@@ -63,7 +63,7 @@ Definition aas5 (c:rcfg) (op len:N) (s:rst) : adv * rst :=
   if iscont || isdata then
     let rl := rlen s + len in
     let s := s <| rlen := rl |> in
-    if 2^63 <=? rl then (AErr RReadLimit, s)
+    if 2^63 <=? rl then (AErr RReadLimit, send WCloseTooBig s)
     else if (0 <? rlimit s) && (rlimit s <? rl) then (AErr RReadLimit, send WCloseTooBig s)
     else (AFrame op, s)
   else
@@ -113,8 +113,10 @@ Definition aas3 (c:rcfg) (op:N) (mask:bool) (len7:N) (s:rst) : adv * rst :=
        (match e with Some e => inr e | None => inl (be_dec p) end, s)
      else if len7 =? 127 then
        let '(p, e, s) := rd 8 s in
-       (match e with Some e => inr e
-                   | None => if 2^63 <=? be_dec p then inr RReadLimit else inl (be_dec p) end, s)
+       match e with
+       | Some e => (inr e, s)
+       | None => if 2^63 <=? be_dec p then (inr RReadLimit, send WCloseTooBig s) else (inl (be_dec p), s)
+       end
      else (inl len7, s) in
   match lenr with inr e => (AErr e, s) | inl len => aas4 c op mask len s end.
 
